@@ -510,6 +510,14 @@ def check_prop(prop, tier, seed):
             rep.violation(dkey(d), describe(d), replay_obj(d))
     if prop == "C01":
         c_sim.check_C01_sim(rep, tier, seed)
+    if prop == "C06":
+        # locations written inside macro bodies (`Spanned<T> = <@L> <T> <@R> ..`): the macro batch
+        import c_feat
+        ms = c_feat.macro_summary(tier, seed)
+        rep.add(macro_batch_parses=ms["stats"]["C01"])
+        for d in ms["disagreements"]:
+            if d["prop"] == "C06":
+                rep.violation(dkey(d), describe(d), replay_obj(d))
     rep.assumptions = ["TLC evaluates Sem.tla / CanonLR.tla faithfully", "rustc and the harness runtime (rt.rs) are correct",
                        "inputs are bounded in length (see rule); grammars are small"]
     return rep.finish(rule=RULES[prop])
